@@ -16,7 +16,8 @@ def key_pool(spec):
             ks.add(p['name'])
             if '_' in p['name']:
                 ks.add(p['name'].replace('_', '-'))
-    ks.update(['foreign_key', 'kind', 'verif_unknown_key', 'self'])
+    ks.update(['foreign_key', 'kind', 'verif_unknown_key', 'self',
+               '_yatiml_extra'])
     return sorted(ks)
 
 
